@@ -14,7 +14,7 @@ def leaves(M, t, v):
             if len(e) == 1:
                 yield from leaves(M, c["t"], e[0])
         yield (t, v)
-    elif k == "CHOICE":
+    elif k in ("CHOICE", "OPEN"):
         for c in M.comps(t):
             if c["n"] == v[0]:
                 yield from leaves(M, c["t"], v[1])
@@ -40,7 +40,7 @@ def types_in(M, t, seen=None):
             yield from types_in(M, M.env[t["n"]], seen)
     elif k == "TAGGED":
         yield from types_in(M, t["t"], seen)
-    elif k in ("SEQUENCE", "SET", "CHOICE"):
+    elif k in ("SEQUENCE", "SET", "CHOICE", "OPEN"):
         for c in M.comps(t):
             yield from types_in(M, c["t"], seen)
     elif k in ("SEQOF", "SETOF"):
@@ -159,6 +159,14 @@ def _has_set(M, t):
     return t["k"] == "SET"
 
 
+def _has_open(M, t):
+    return t["k"] == "OPEN"
+
+
+def _has_oid_ioc(M, t):
+    return t["k"] == "OPEN" and bool(t["comps"][0].get("oid"))
+
+
 def _tag_ge_2p30(M, t):
     return t["k"] == "TAGGED" and t["num"] >= 2 ** 30
 
@@ -211,7 +219,7 @@ def _has_explicit_tag(M, t):
         if t["mode"] == "E" or (t["mode"] == "D" and tagging == "EXPLICIT") or M.deref(t["t"])["k"] == "CHOICE":
             return True
     if tagging == "AUTOMATIC" and t["k"] in ("SEQUENCE", "SET", "CHOICE"):
-        return any(M.deref(c["t"])["k"] == "CHOICE" for c in M.comps(t))
+        return any(M.deref(c["t"])["k"] in ("CHOICE", "OPEN") for c in M.comps(t))
     return False
 
 
@@ -319,6 +327,8 @@ PREDS = {
     "numeric_string": any_leaf(_numeric_string),
     "string_out_of_root": any_leaf(_string_out_of_root),
     "has_set": any_type(_has_set),
+    "has_open": any_type(_has_open),
+    "has_oid_ioc": any_type(_has_oid_ioc),
     "tag_ge_2p30": any_type(_tag_ge_2p30),
     "tagged_choice_ref": any_type(_tagged_choice_ref),
     "has_retagged_string": any_type(_has_retagged_string),
